@@ -774,3 +774,92 @@ fn native_c14_bounded() {
         }
     }
 }
+
+// ------------------------------------------------------------------------------------------------
+// C09 bounded stand-in, natively, on the REAL Bus::read / Bus::write (with the peripheral link of a real Cpu):
+// classification of all 2^24 addresses and a sample above; every plain storage location (everything accessible
+// except the port DDR/DR registers) filled with an address-dependent pattern and read back AFTER all the other
+// locations were filled (any aliasing between two locations with different patterns shows); then a second write
+// with the complemented pattern, read back, with 26 neighbours (a +/- 1, a ^ 2^k) unchanged.  The Verus unit
+// `bus` proves the same for all values and histories; this enumeration keeps a violation visible when a source
+// change takes the extraction out of the unit's reach.  Fixed value patterns -> BOUNDED, not counted as proved.
+#[test]
+fn native_c09_bounded() {
+    if std::env::var("KOGE29_C09").is_err() {
+        return;
+    }
+    let is_port = |a: u32| (0xfee000..=0xfee00a).contains(&a) || (0xffffd0..=0xffffda).contains(&a);
+    let pat = |a: u32| -> u8 { ((a.wrapping_mul(167).wrapping_add(13)) ^ (a >> 8) ^ (a >> 15) ^ (a >> 21)) as u8 };
+    let cpu0 = Cpu::new();
+    let mut bus = cpu0.bus.clone();
+    let mut fails: Vec<(&'static str, String)> = vec![];
+    let mut fail = |c: &'static str, d: String, fails: &mut Vec<(&'static str, String)>| {
+        if fails.iter().filter(|f| f.0 == c).count() < 3 {
+            fails.push((c, d));
+        }
+    };
+    let above: [u32; 9] = [0x0100_0000, 0x0100_0001, 0x0140_0000, 0x01ff_bf20, 0x4040_0000, 0x8000_0000, 0xff00_0000, 0xffff_ff20, 0xffff_ffff];
+    let mut mapped_n = 0u64;
+    let mut count = 0u64;
+    // pass 1: classification (reads everywhere, writes to unmapped addresses on a sample and around every boundary)
+    for a in (0u32..0x0100_0000).chain(above.iter().copied()) {
+        let m = isa::mapped(a);
+        count += 1;
+        if bus.read(a).is_ok() != m {
+            fail("accessible_iff_in_the_five_regions", format!("read at {:#x}: is_ok={} expected {}", a, !m, m), &mut fails);
+        }
+        if m {
+            mapped_n += 1;
+        } else {
+            let near = [0x100u32, 0x400000, 0x600000, 0xfee000, 0xfee100, 0xffbf20, 0xffffea, 0x1000000].iter().any(|b| a as u64 + 8 >= *b as u64 && a as u64 <= *b as u64 + 8);
+            if (near || a % 251 == 0 || a >= 0x0100_0000) && bus.write(a, 0xa5).is_ok() {
+                fail("unmapped_write_fails", format!("write at {:#x} reported success", a), &mut fails);
+            }
+        }
+    }
+    // pass 2: fill every plain storage location, then read all of them back
+    let storage: Vec<u32> = (0u32..0x0100_0000).filter(|a| isa::mapped(*a) && !is_port(*a)).collect();
+    for &a in storage.iter() {
+        if bus.write(a, pat(a)).is_err() {
+            fail("accessible_iff_in_the_five_regions", format!("write at {:#x} failed", a), &mut fails);
+        }
+    }
+    for &a in storage.iter() {
+        let got = bus.read(a).unwrap_or(0);
+        if got != pat(a) {
+            fail("written_byte_is_read_back_after_all_other_writes", format!("at {:#x}: read {:#x}, written {:#x}", a, got, pat(a)), &mut fails);
+        }
+    }
+    // pass 3: one more write per location, neighbours unchanged
+    for &a in storage.iter() {
+        let mut nb: Vec<u32> = vec![a.wrapping_sub(1), a.wrapping_add(1)];
+        for k in 0..24 {
+            nb.push(a ^ (1u32 << k));
+        }
+        let before: Vec<Option<u8>> = nb.iter().map(|&b| bus.read(b).ok()).collect();
+        let v = !pat(a);
+        let _ = bus.write(a, v);
+        if bus.read(a).ok() != Some(v) {
+            fail("written_byte_is_read_back", format!("at {:#x}: wrote {:#x}, read {:?}", a, v, bus.read(a).ok()), &mut fails);
+        }
+        for (i, &b) in nb.iter().enumerate() {
+            if is_port(b) {
+                continue;
+            }
+            let now = bus.read(b).ok();
+            if now != before[i] {
+                fail("no_other_location_changes", format!("write at {:#x} changed {:#x} from {:?} to {:?}", a, b, before[i], now), &mut fails);
+            }
+        }
+        let _ = bus.write(a, pat(a));
+        count += 1;
+    }
+    // the port registers are accessible too (their values are C16's subject)
+    println!("C09-BOUNDED addresses={} mapped={} failures={}", count, mapped_n, fails.len());
+    let mut seen = std::collections::BTreeSet::new();
+    for (c, d) in fails.iter() {
+        if seen.insert(*c) {
+            println!("C09-FAIL {} {}", c, d);
+        }
+    }
+}
